@@ -1527,6 +1527,8 @@ class PkgRelation(object):
                 'restrictions': None,
             }
 
+        if not raw.strip():
+            return []     # no relationship at all (what PkgRelation.str([]) writes)
         tl_deps = cls.__comma_sep_RE.split(raw.strip())   # top-level deps
         cnf = map(cls.__pipe_sep_RE.split, tl_deps)
         return [[parse_rel(or_dep) for or_dep in or_deps] for or_deps in cnf]
